@@ -260,7 +260,8 @@ pub fn parse_proj(definition: &str) -> Result<String, Error> {
     let all = definition
         .replace("\r\n", "\n")
         .replace('\r', "\n")
-        .replace('\t', " ")
+        // (any kind of white space may precede a '+': tab, form feed, no-break space...)
+        .replace(|c: char| c != '\n' && c.is_whitespace(), " ")
         .replace(" +", " ")
         .replace("\n+", "\n")
         .trim()
